@@ -18,7 +18,7 @@ ALIASES = {
 }
 
 BUILTINS = ('len', 'range', 'abs', 'isinstance', 'enumerate', 'list', 'set', 'int', 'float', 'iter', 'str',
-            'print', 'tuple', 'min', 'max', 'sum', 'zip', 'object', 'type', 'hasattr', 'bool', 'sorted',
+            'print', 'tuple', 'min', 'max', 'sum', 'zip', 'object', 'type', 'hasattr', 'getattr', 'bool', 'sorted',
             'ValueError', 'TypeError', 'KeyError', 'NotImplementedError', 'AssertionError', 'ImportError',
             'DeprecationWarning', 'Exception', 'dict')
 
@@ -308,12 +308,25 @@ def sp_dst(ip, args, kwargs, node):
     if not is_const_num(ty):
         raise Unsupported('dst type is not a literal', node)
     ty = int(num_value(ty))
-    ip.notes.append(('dst', {'type': ty, 'extra_kwargs': extra, 'nargs': len(args), 'loc': ip.loc(node)}))
-    if extra or len(args) > 2:
-        raise Unsupported('dst with normalisation/axis arguments %s' % extra, node)
+    if len(args) > 2:
+        raise Unsupported('dst with positional n/axis/norm arguments', node)
+    variant = []
+    for k in extra:
+        v = kwargs[k]
+        if k == 'norm' and isinstance(v, Const) and v.v is None:
+            continue            # the default: un-normalised
+        if k == 'axis' and is_const_num(v) and int(num_value(v)) in (-1, 0):
+            continue            # pair functions are 1-D: same axis
+        if k in ('norm', 'axis', 'n', 'overwrite_x') and (isinstance(v, Const) or is_const_num(v)):
+            variant.append('%s=%s' % (k, v.v if isinstance(v, Const) else num_value(v)))
+            continue
+        raise Unsupported('dst keyword %s with a non-literal value' % k, node)
+    ip.notes.append(('dst', {'type': ty, 'extra_kwargs': variant, 'nargs': len(args), 'loc': ip.loc(node)}))
     if P.is_pw(t):
         raise Unsupported('piecewise dst operand', node)
-    return ip.fresh_array(N.fn('dst%d' % ty, t))
+    # a normalised / truncated / other-axis transform is a different linear map: a distinct uninterpreted atom
+    name = 'dst%d' % ty + (''.join('[%s]' % x for x in variant))
+    return ip.fresh_array(N.fn(name, t))
 
 
 def sp_root(ip, args, kwargs, node):
@@ -461,6 +474,28 @@ def b_abs(ip, args, kwargs, node):
             return -v
         return N.absval(v)
     return ip.make_result(P.lift1(f, t), k)
+
+
+def b_hasattr(ip, args, kwargs, node):
+    o, nm = args
+    if not (isinstance(nm, Const) and isinstance(nm.v, str)):
+        raise Unsupported('hasattr with a computed name', node)
+    if isinstance(o, Obj):
+        if nm.v in o.attrs or ip.find_method(o, nm.v) is not None:
+            return TRUE
+        return FALSE
+    raise Unsupported('hasattr on %r' % (o,), node)
+
+
+def b_getattr(ip, args, kwargs, node):
+    o, nm = args[0], args[1]
+    if not (isinstance(nm, Const) and isinstance(nm.v, str)):
+        raise Unsupported('getattr with a computed name', node)
+    if isinstance(o, Obj):
+        if nm.v in o.attrs or ip.find_method(o, nm.v) is not None or len(args) < 3:
+            return ip.get_attr(o, nm.v, node)
+        return args[2]
+    raise Unsupported('getattr on %r' % (o,), node)
 
 
 def b_isinstance(ip, args, kwargs, node):
@@ -634,7 +669,7 @@ CALLS = {
     'itertools.product': it_product,
     'warnings.warn': w_warn,
     'builtins.len': b_len, 'builtins.range': b_range, 'builtins.abs': b_abs,
-    'builtins.isinstance': b_isinstance, 'builtins.enumerate': b_enumerate, 'builtins.list': b_list,
+    'builtins.isinstance': b_isinstance, 'builtins.hasattr': b_hasattr, 'builtins.getattr': b_getattr, 'builtins.enumerate': b_enumerate, 'builtins.list': b_list,
     'builtins.tuple': b_list,
     'builtins.int': b_int, 'builtins.float': b_float, 'builtins.print': b_noop,
 }
